@@ -270,7 +270,7 @@ func TestC16Regex(t *testing.T) {
 			p = rapid.SampledFrom(invalidPatterns).Draw(rt, "badpat")
 		}
 		alphabet := []rune("aabbc1A ")
-		if rapid.IntRange(0, 5).Draw(rt, "multibyte") == 0 {
+		if rapid.IntRange(0, 5).Draw(rt, "multibyte") == 5 {
 			alphabet = []rune("aabé中c1A ")
 		}
 		s := rapid.StringOfN(rapid.SampledFrom(alphabet), 0, 8, -1).Draw(rt, "s")
@@ -688,81 +688,137 @@ func oracleC16Sched(l *harness.Live) (nontrivial bool, f *harness.Failure) {
 			results <- res{i, v, err}
 		}(i, k)
 	}
-	// wait until every goroutine is inside its load (misses) or has returned (hits)
+	// The harness is an event loop over "a get entered its load" and "a get returned".
+	// It first lets the gets settle: until every one of them is inside its load (miss) or
+	// has returned (hit), or - for an implementation that serialises loads, which the
+	// property allows - until nothing has moved for a moment. The moment only decides how
+	// many loads overlap (what is explored), never the verdict.
 	inLoad := map[string]bool{}
 	finished := map[int]res{}
-	// generous: machine load must not be able to raise an alarm, a real deadlock stays one
-	deadline := time.After(90 * time.Second)
-	for len(inLoad)+len(finished) < len(keys) {
-		select {
-		case k := <-entered:
-			inLoad[k] = true
-		case r := <-results:
-			finished[r.i] = r
-		case <-deadline:
-			return false, harness.Failf("all gets reach their load or return", fmt.Sprintf("%d in load, %d finished of %d", len(inLoad), len(finished), len(keys)), "a get neither returned nor called the load function (deadlock?)")
-		}
-	}
 	check := func(r res) *harness.Failure {
 		if r.err != nil || r.v != "v:"+keys[r.i] {
 			return harness.Failf("v:"+keys[r.i], fmt.Sprintf("%v, %v", r.v, r.err), "get(%s) returned the wrong value", keys[r.i])
 		}
-		if n := xpath.VerifCacheLen(c); capacity > 0 && n > capacity {
-			return harness.Failf(fmt.Sprintf("at most %d entries", capacity), fmt.Sprintf("%d entries", n), "after get(%s) completed with %d loads released in the miss window", keys[r.i], len(inLoad))
+		// the size can only be read when the cache's lock is free; an implementation that
+		// keeps it while a load is held back by the harness is allowed to - then the size is
+		// looked at again later and in any case at the end of the schedule
+		sz := make(chan int, 1)
+		go func() { sz <- xpath.VerifCacheLen(c) }()
+		select {
+		case n := <-sz:
+			if capacity > 0 && n > capacity {
+				return harness.Failf(fmt.Sprintf("at most %d entries", capacity), fmt.Sprintf("%d entries", n), "after get(%s) completed with %d loads released in the miss window", keys[r.i], len(inLoad))
+			}
+		case <-time.After(20 * time.Millisecond):
 		}
 		return nil
 	}
-	for _, r := range finished {
-		if f := check(r); f != nil {
-			return false, f
+	waiting := func() int { // gets held inside their load
+		n := 0
+		for _, v := range inLoad {
+			if v {
+				n++
+			}
+		}
+		return n
+	}
+	// event waits for one event; quiet > 0 returns (false, nil) when nothing happens for that long.
+	// Without quiet, 90 s of silence while no load is held back is a deadlock of the code under test.
+	event := func(quiet time.Duration) (bool, *harness.Failure) {
+		var timer <-chan time.Time
+		if quiet > 0 {
+			timer = time.After(quiet)
+		} else {
+			timer = time.After(90 * time.Second)
+		}
+		select {
+		case k := <-entered:
+			inLoad[k] = true
+			return true, nil
+		case r := <-results:
+			finished[r.i] = r
+			return true, check(r)
+		case <-timer:
+			if quiet > 0 {
+				return false, nil
+			}
+			return false, harness.Failf("every get reaches its load or returns", fmt.Sprintf("%d held in load, %d finished of %d, nothing moved for 90 s", waiting(), len(finished), len(keys)), "a get neither returned nor called the load function although no load is held back (deadlock?)")
 		}
 	}
-	release := func(i int) {
+	settle := func() *harness.Failure {
+		for waiting()+len(finished) < len(keys) {
+			quiet := 5 * time.Millisecond
+			if waiting() == 0 {
+				quiet = 0 // nothing is held back: whatever is still running must move
+			}
+			moved, f := event(quiet)
+			if f != nil {
+				return f
+			}
+			if !moved {
+				break
+			}
+		}
+		return nil
+	}
+	if f := settle(); f != nil {
+		return false, f
+	}
+	misses := waiting()
+	release := func(i int) bool {
 		k := keys[i]
 		if inLoad[k] {
 			close(gates[k])
 			inLoad[k] = false
+			return true
 		}
+		return false
 	}
-	waitOne := func() *harness.Failure {
-		select {
-		case r := <-results:
-			finished[r.i] = r
-			return check(r)
-		case <-time.After(90 * time.Second):
-			return harness.Failf("a released get returns", "nothing within 90 s", "a get did not return after its load was released")
-		}
-	}
-	misses := 0
-	for _, v := range inLoad {
-		if v {
-			misses++
+	// after a release: wait until that get has returned, then let the others settle again
+	// (gets that were queued behind a serialised load may enter theirs now)
+	awaitReturn := func(i int) *harness.Failure {
+		for {
+			if _, done := finished[i]; done {
+				return settle()
+			}
+			if _, f := event(0); f != nil {
+				return f
+			}
 		}
 	}
 	if allAtOnce {
-		for i := range keys {
-			release(i)
-		}
 		for len(finished) < len(keys) {
-			if f := waitOne(); f != nil {
+			for i := range keys {
+				release(i)
+			}
+			if len(finished) == len(keys) {
+				break
+			}
+			if _, f := event(0); f != nil {
 				return false, f
 			}
 		}
 	} else {
 		for _, oi := range order {
 			i := oi % len(keys)
-			if _, done := finished[i]; done || !inLoad[keys[i]] {
-				continue
-			}
-			release(i)
-			if f := waitOne(); f != nil {
-				return false, f
+			if release(i) {
+				if f := awaitReturn(i); f != nil {
+					return false, f
+				}
 			}
 		}
-		for i := range keys {
-			if _, done := finished[i]; !done {
-				release(i)
-				if f := waitOne(); f != nil {
+		for len(finished) < len(keys) {
+			released := false
+			for i := range keys {
+				if release(i) {
+					released = true
+					if f := awaitReturn(i); f != nil {
+						return false, f
+					}
+				}
+			}
+			if !released && len(finished) < len(keys) {
+				if _, f := event(0); f != nil {
 					return false, f
 				}
 			}
